@@ -40,10 +40,11 @@ Section Mechanism.
   Variable src_eqb : src -> src -> bool.
   Variable iface_eqb : iface -> iface -> bool.
   Variable resolve : opts -> modid -> opts.
-  Variable analyze : src -> list iface -> opts -> iface * list etuple.
+  Variable analyze : src -> list iface -> opts -> list value -> iface * list etuple.
   Variable key_np : list name.
   Variable dir_names : list name.
   Variable fmt : opts -> list etuple -> list string.
+  Variable imp : opts -> src -> list value.
 
   (* hashes are the identity: equal hashes mean equal content (DESIGN section 3) *)
   Hypothesis mod_eqb_eq : forall a b, mod_eqb a b = true -> a = b.
@@ -53,23 +54,23 @@ Section Mechanism.
   (* CONTRACT (monitored by the toggle matrix, not proved): the analysis of a module depends on its resolved
      options only through the set `reads` *)
   Variable reads : list name.
-  Hypothesis analyze_reads : forall s ds o o',
-    (forall n, In n reads -> get o n = get o' n) -> analyze s ds o = analyze s ds o'.
+  Hypothesis analyze_reads : forall s ds o o' x,
+    (forall n, In n reads -> get o n = get o' n) -> analyze s ds o x = analyze s ds o' x.
   (* the options selecting the cache location are global (not per-module) *)
   Hypothesis resolve_dir : forall o m n, In n dir_names -> get (resolve o m) n = get o n.
 
   Notation entry := (entry src iface etuple).
   Notation cache := (cache src iface etuple modid).
   Notation st := (st src iface etuple modid).
-  Notation step := (step src iface etuple modid mod_eqb src_eqb iface_eqb resolve analyze key_np dir_names).
-  Notation run := (run src iface etuple modid mod_eqb src_eqb iface_eqb resolve analyze key_np dir_names).
-  Notation cold := (cold src iface etuple modid mod_eqb src_eqb iface_eqb resolve analyze key_np dir_names).
-  Notation warm := (warm src iface etuple modid mod_eqb src_eqb iface_eqb resolve analyze key_np dir_names).
+  Notation step := (step src iface etuple modid mod_eqb src_eqb iface_eqb resolve analyze key_np dir_names imp).
+  Notation run := (run src iface etuple modid mod_eqb src_eqb iface_eqb resolve analyze key_np dir_names imp).
+  Notation cold := (cold src iface etuple modid mod_eqb src_eqb iface_eqb resolve analyze key_np dir_names imp).
+  Notation warm := (warm src iface etuple modid mod_eqb src_eqb iface_eqb resolve analyze key_np dir_names imp).
   Notation lookup := (lookup src iface etuple modid mod_eqb).
-  Notation pure_step := (pure_step src iface etuple modid resolve analyze).
-  Notation pure_run := (pure_run src iface etuple modid resolve analyze).
+  Notation pure_step := (pure_step src iface etuple modid resolve analyze imp).
+  Notation pure_run := (pure_run src iface etuple modid resolve analyze imp).
   Notation output := (output src iface etuple modid fmt).
-  Notation run_history := (run_history src iface etuple modid mod_eqb src_eqb iface_eqb resolve analyze key_np dir_names fmt).
+  Notation run_history := (run_history src iface etuple modid mod_eqb src_eqb iface_eqb resolve analyze key_np dir_names fmt imp).
   Notation cache_after := (cache_after src iface etuple modid).
   Notation tuples := (tuples src iface etuple modid).
 
@@ -78,7 +79,7 @@ Section Mechanism.
   Definition entry_ok (ke : ckey modid * entry) : Prop :=
     exists o, fst (fst ke) = dirkey dir_names o
       /\ e_snap (snd ke) = options_snapshot key_np (resolve o (snd (fst ke)))
-      /\ e_res (snd ke) = analyze (e_src (snd ke)) (e_deps (snd ke)) (resolve o (snd (fst ke))).
+      /\ e_res (snd ke) = analyze (e_src (snd ke)) (e_deps (snd ke)) (resolve o (snd (fst ke))) (e_imp (snd ke)).
   Definition cache_ok (c : cache) : Prop := Forall entry_ok c.
 
   Lemma lookup_in : forall (c : cache) k e, lookup c k = Some e -> In (k, e) c.
@@ -94,10 +95,10 @@ Section Mechanism.
   Lemma step_cache_ok : forall o acc ms, cache_ok (st_cache acc) -> cache_ok (st_cache (step o acc ms)).
   Proof.
     intros o acc [m s] H. unfold Model.step.
-    assert (Hst : forall snap r, r = analyze s (st_ifaces acc) (resolve o m) ->
+    assert (Hst : forall snap r, r = analyze s (st_ifaces acc) (resolve o m) (imp o s) ->
               snap = options_snapshot key_np (resolve o m) ->
               cache_ok (store src iface etuple modid (st_cache acc) (dirkey dir_names o, m)
-                         {| e_src := s; e_deps := st_ifaces acc; e_snap := snap; e_res := r |})).
+                         {| e_src := s; e_deps := st_ifaces acc; e_snap := snap; e_imp := imp o s; e_res := r |})).
     { intros snap r -> ->. constructor; auto. exists o; simpl; auto. }
     destruct (lookup (st_cache acc) (dirkey dir_names o, m)) as [e|]; [destruct (reusable _ _ _ _ _ _ _ _ _ _)|];
       simpl; auto.
@@ -126,14 +127,15 @@ Section Mechanism.
     destruct (lookup (st_cache acc) (dirkey dir_names o, m)) as [e|] eqn:EL; [|reflexivity].
     destruct (reusable _ _ _ _ _ _ _ _ _ _) eqn:ER; [|reflexivity].
     simpl. unfold reusable in ER. rewrite L in ER.
+    apply andb_true_iff in ER as [ER ER4]. apply str_list_eqb_eq in ER4.
     apply andb_true_iff in ER as [ER ER3]. apply andb_true_iff in ER as [ER1 ER2].
     apply src_eqb_eq in ER1. apply (list_eqb_eq _ _ iface_eqb_eq) in ER2.
     apply snap_match_strict in ER3 as [Sp So].
     apply lookup_in in EL. unfold cache_ok in H. rewrite Forall_forall in H.
     destruct (H _ EL) as [o0 [Hd [Hs Hr]]]. simpl in Hd, Hs, Hr.
-    assert (A : analyze s (st_ifaces acc) (resolve o0 m) = analyze s (st_ifaces acc) (resolve o m)).
+    assert (A : analyze s (st_ifaces acc) (resolve o0 m) (imp o s) = analyze s (st_ifaces acc) (resolve o m) (imp o s)).
     { apply analyze_reads. apply same_key_same_reads; auto; rewrite <- Hs; auto. }
-    rewrite Hr, ER1, ER2, A. reflexivity.
+    rewrite Hr, ER1, ER2, ER4, A. reflexivity.
   Qed.
 
   Lemma fold_ok : forall o fs acc, cache_ok (st_cache acc) -> is_lax o = false ->
@@ -198,31 +200,34 @@ Section Mechanism.
   (* the tuples of a cold run depend on the options only through `reads` *)
   Lemma pure_fold_ext : forall o1 o2,
     (forall m n, In n reads -> get (resolve o1 m) n = get (resolve o2 m) n) ->
+    (forall s, imp o1 s = imp o2 s) ->
     forall fs acc, fold_left (pure_step o1) fs acc = fold_left (pure_step o2) fs acc.
   Proof.
-    intros o1 o2 E fs; induction fs as [|[m s] r IH]; intros acc; simpl; auto.
+    intros o1 o2 E EI fs; induction fs as [|[m s] r IH]; intros acc; simpl; auto.
     rewrite <- IH. f_equal. unfold Model.pure_step.
-    rewrite (analyze_reads s (fst acc) (resolve o1 m) (resolve o2 m) (E m)). reflexivity.
+    rewrite (analyze_reads s (fst acc) (resolve o1 m) (resolve o2 m) (imp o1 s) (E m)), (EI s). reflexivity.
   Qed.
 
   Lemma post_load_applied_late : forall c fs o1 o2, cache_ok c ->
     is_lax o1 = false -> is_lax o2 = false ->
     (forall m n, In n reads -> get (resolve o1 m) n = get (resolve o2 m) n) ->
+    (forall s, imp o1 s = imp o2 s) ->
     output o2 (warm c fs o2) = flat_map (fun mt => fmt o2 (snd mt)) (tuples (cold fs o1)).
   Proof.
-    intros c fs o1 o2 H L1 L2 E. unfold Model.output, Model.tuples.
+    intros c fs o1 o2 H L1 L2 E EI. unfold Model.output, Model.tuples.
     rewrite (warm_out_eq_cold c fs o2 H L2).
     pose proof (run_pure [] fs o1 empty_ok L1) as A. pose proof (run_pure [] fs o2 empty_ok L2) as B.
-    unfold Model.pure_run in *. rewrite (pure_fold_ext o1 o2 E) in A. rewrite <- B in A.
+    unfold Model.pure_run in *. rewrite (pure_fold_ext o1 o2 E EI) in A. rewrite <- B in A.
     unfold Model.cold. injection A as _ A2. rewrite A2. reflexivity.
   Qed.
 
   Lemma post_load_after_cold : forall fs o1 o2,
     is_lax o1 = false -> is_lax o2 = false ->
     (forall m n, In n reads -> get (resolve o1 m) n = get (resolve o2 m) n) ->
+    (forall s, imp o1 s = imp o2 s) ->
     output o2 (warm (cache_after (cold fs o1)) fs o2) = flat_map (fun mt => fmt o2 (snd mt)) (tuples (cold fs o1)).
   Proof.
-    intros fs o1 o2 L1 L2 E. apply post_load_applied_late; auto. apply run_cache_ok, empty_ok.
+    intros fs o1 o2 L1 L2 E EI. apply post_load_applied_late; auto. apply run_cache_ok, empty_ok.
   Qed.
 
   Lemma history_from_empty : forall h, Forall (fun fo => is_lax (snd fo) = false) h ->
